@@ -350,11 +350,13 @@ def structured_reads(tier):
                         yield (el, ek, (hc, hl), (tc, tl), intron)
 
 
-def build_alignment(spec):
+def build_alignment(spec, hard=(0, 0)):
     import pysam
     el, ek, (hc, hl), (tc, tl), intron = spec
     cig = []
     seq = ""
+    if hard[0]:
+        cig.append((H, hard[0]))
     if hl:
         cig.append((S, hl))
         seq += hc * hl
@@ -371,6 +373,8 @@ def build_alignment(spec):
     if tl:
         cig.append((S, tl))
         seq += tc * tl
+    if hard[1]:
+        cig.append((H, hard[1]))
     a = pysam.AlignedSegment()
     a.query_name = "r"
     a.query_sequence = seq
@@ -413,6 +417,25 @@ def check_trim_real(specs):
             err = trimming_oracle(exons, ai, info0, strict_internal=False)
             if err:
                 bad.append((spec, max_fake, err + " polya_info(ea,et,ia,it)=%s" % (info0,)))
+            if max_fake == 40:
+                # hard clips consume neither query nor reference: the same alignment written with H outside the soft clips (or
+                # instead of absent clips) must give the same exons and tail positions
+                res0 = (list(ai.read_exons), ai.polya_info.external_polya_pos, ai.polya_info.external_polyt_pos,
+                        ai.polya_info.internal_polya_pos, ai.polya_info.internal_polyt_pos)
+                for hard in ((7, 0), (0, 7), (7, 7)):
+                    n += 1
+                    try:
+                        a2, _ = build_alignment(spec, hard)
+                        ai2 = AlignmentInfo(a2)
+                        ai2.add_polya_info(finder, fixer)
+                        res2 = (list(ai2.read_exons), ai2.polya_info.external_polya_pos, ai2.polya_info.external_polyt_pos,
+                                ai2.polya_info.internal_polya_pos, ai2.polya_info.internal_polyt_pos)
+                    except Exception as e:  # noqa
+                        res2 = "EXC " + repr(e)
+                    if res2 != res0:
+                        bad.append((spec, max_fake, "hard-clip-variant %s gives (exons, ext polyA, ext polyT, int polyA, int polyT) = %s, without hard clips %s" %
+                                    (hard, res2, res0)))
+                        break
     return n, nontriv, bad[:20], outcomes
 
 
